@@ -34,15 +34,20 @@ def confirm(src, mid):
     try:
         os.makedirs(wt + "/tests", exist_ok=True)
         shutil.copy(demo, wt + "/tests/demo.rs")
-        cmd = meta.get("demo_cmd", "cargo test --offline --test demo")
-        # normalise the command: run inside the worktree, test target named demo
-        cmd = cmd.replace("demo_test", "demo")
-        if "cd " in cmd and "&&" in cmd:
-            cmd = cmd.split("&&", 1)[1].strip()
+        raw = meta.get("demo_cmd", "cargo test --offline --test demo")
         import re as _re
-        cmd = _re.sub(r"CARGO_TARGET_DIR=\S+\s*", "", cmd)
-        if "--test" not in cmd:
-            cmd = "cargo test --offline --test demo"
+        feats = _re.search(r"--features[= ]+(\S+)", raw)
+        rflags = _re.search(r"RUSTFLAGS=(\"[^\"]*\"|'[^']*'|\S+)", raw)
+        cmd = "cargo test --offline"
+        if "--release" in raw:
+            cmd += " --release"
+        if feats:
+            cmd += " --features " + feats.group(1).strip("\"'")
+        cmd += " --test demo"
+        if "--test-threads=1" in raw:
+            cmd += " -- --test-threads=1"
+        if rflags:
+            cmd = "RUSTFLAGS=" + rflags.group(1) + " " + cmd
         res["demo_cmd"] = cmd
         rc0, out0 = sh(cmd, cwd=wt, env=env)
         res["demo_without_patch"] = "pass" if rc0 == 0 else "FAIL"
